@@ -3,6 +3,7 @@ package main
 import (
 	"fmt"
 	"go/token"
+	"sort"
 	"strings"
 
 	"golang.org/x/tools/go/ssa"
@@ -10,7 +11,7 @@ import (
 
 func init() {
 	props["C07"] = func(c *Ctx) {
-		c.R.Expl = "Structural conditions of the unstable-write contract: (U1) in WRITE the stability level reported in the reply is the value the commit call was chosen by, and the asynchronous commit is reachable only where that value is neither FILE_SYNC nor DATA_SYNC; CommitUnstable has no other caller; (U2) COMMIT reports success only after CommitFh, which flushes the journal unconditionally; (U3) WRITE and COMMIT return a write verifier that comes from a per-instance field set only at construction from a source that differs between instances; (U4) when unstable writes are disabled the level is upgraded to FILE_SYNC before the dispatch."
+		c.R.Expl = "Structural conditions of the unstable-write contract: (U1) in WRITE the stability level reported in the reply is the value the commit call was chosen by, and the asynchronous commit is reachable only where that value is neither FILE_SYNC nor DATA_SYNC; CommitUnstable has no other caller; (U2) COMMIT reports success only after CommitFh, which flushes the journal unconditionally; (U3) WRITE and COMMIT return a write verifier that comes from a per-instance field set only at construction from a source that differs between instances; (U4) when unstable writes are disabled the level is upgraded to FILE_SYNC before the dispatch; (U7) WRITE reports success only on paths where the result of the commit it chose - asynchronous or not - was tested and true."
 		c.R.NotDec = "that the data survives (journal, trusted) and that loss is a suffix (journal's group-commit order)."
 		ruleU1(c, "C07.U1")
 		ruleU2(c, "C07.U2")
@@ -18,6 +19,7 @@ func init() {
 		ruleW1(c, "C07.U4")
 		ruleM6(c, "C07.U5")
 		ruleR2(c, "C07.U6")
+		ruleU7(c, "C07.U7")
 	}
 }
 
@@ -36,10 +38,20 @@ func ruleU1(c *Ctx, id string) {
 	}
 	R.Analysed[FuncName(w)] = true
 	for _, cs := range P.CallersOf(V.CommitUnstable) {
-		if IsRepoFunc(cs.Caller) {
-			ow := ownerOf(cs.Caller)
-			R.Check(ow == w, id, FuncName(ow)+"|calls CommitUnstable", P.Pos(cs.Instr.Pos()), "the asynchronous commit is used only by WRITE", "WRITE", "a procedure other than WRITE acknowledges without durability")
+		if !IsRepoFunc(cs.Caller) {
+			continue
 		}
+		if terminatorOf(V, cs.Caller) == V.CommitUnstable && cs.Caller.Synthetic != "" {
+			// CommitUnstable taken as a function value ("(*fstxn.FsTxn).CommitUnstable"): whoever mentions the
+			// value, or reads the package-level table it was put in, is the user
+			for _, u := range funcValueUsers(P, cs.Caller) {
+				ow := ownerOf(u.Parent())
+				R.Check(ow == w, id, FuncName(ow)+"|calls CommitUnstable", P.Pos(u.Pos()), "the asynchronous commit is used only by WRITE", "WRITE", "a procedure other than WRITE acknowledges without durability")
+			}
+			continue
+		}
+		ow := ownerOf(cs.Caller)
+		R.Check(ow == w, id, FuncName(ow)+"|calls CommitUnstable", P.Pos(cs.Instr.Pos()), "the asynchronous commit is used only by WRITE", "WRITE", "a procedure other than WRITE acknowledges without durability")
 	}
 	constOf := func(name string) int64 {
 		if o := P.Pkg("nfstypes").Types.Scope().Lookup(name); o != nil {
@@ -68,6 +80,46 @@ func ruleU1(c *Ctx, id string) {
 			}
 		}
 	}
+	// the same knowledge from a table: "commit, listed := table[args.Stable]; if !listed" - the level is none of the
+	// table's keys, when the table is a package-level map that only its initialiser fills
+	notLevelT := func(level int64) CondMatcherX {
+		return func(sub Subst) func(Cond) (bool, bool) {
+			return func(cd Cond) (bool, bool) {
+				if cd.Op != token.ILLEGAL || cd.X == nil {
+					return false, false
+				}
+				ex, isE := sub.resolve(stripConv(cd.X)).(*ssa.Extract)
+				if !isE || ex.Index != 1 {
+					return false, false
+				}
+				lk, isL := ex.Tuple.(*ssa.Lookup)
+				if !isL || !lk.CommaOk || !isStableLoad(sub.resolve(stripConv(lk.Index))) {
+					return false, false
+				}
+				ld, isLd := stripConv(lk.X).(*ssa.UnOp)
+				if !isLd || ld.Op != token.MUL {
+					return false, false
+				}
+				g, isG := ld.X.(*ssa.Global)
+				if !isG {
+					return false, false
+				}
+				ents, okT := constTable(P, g)
+				if !okT {
+					return false, false
+				}
+				for _, e := range ents {
+					if e.key == level {
+						return true, false // on the 'not listed' side the level is not this key
+					}
+				}
+				return false, false
+			}
+		}
+	}
+	notLevel := func(scopes []Scope, sc Scope, at *ssa.BasicBlock, level int64) bool {
+		return guardedUp(scopes, sc, at, notLevelM(level)) || guardedUp(scopes, sc, at, notLevelT(level))
+	}
 	// the statements of WRITE through which a commit of the transaction runs
 	var dispatch []ssa.Instruction
 	nUnstable := 0
@@ -77,8 +129,76 @@ func ruleU1(c *Ctx, id string) {
 		}
 		for _, call := range P.CallsIn(sc.Fn, funcIs(V.CommitUnstable)) {
 			nUnstable++
-			ok := guardedUp(wScopes, sc, call.Block(), notLevelM(fileSync)) && guardedUp(wScopes, sc, call.Block(), notLevelM(dataSync))
+			ok := notLevel(wScopes, sc, call.Block(), fileSync) && notLevel(wScopes, sc, call.Block(), dataSync)
 			R.Check(ok, id, "NFSPROC3_WRITE|CommitUnstable only when neither FILE_SYNC nor DATA_SYNC", P.Pos(call.Pos()), "the asynchronous commit is dominated by args.Stable != FILE_SYNC and args.Stable != DATA_SYNC", "both guards dominate", "a write requested with stable semantics is acknowledged after an asynchronous commit")
+		}
+		// the commit chosen as a function value and called once ("commit(op)")
+		for _, b := range sc.Fn.Blocks {
+			for _, in := range b.Instrs {
+				call, isC := in.(*ssa.Call)
+				if !isC || call.Call.StaticCallee() != nil || call.Call.IsInvoke() || terminatorThunkCallee(c, call) == nil {
+					continue
+				}
+				dispatch = append(dispatch, topInstr(wScopes, sc, call))
+				// every way the asynchronous commit can become the value called
+				var walk func(v ssa.Value, at *ssa.BasicBlock, seen map[ssa.Value]bool)
+				walk = func(v ssa.Value, at *ssa.BasicBlock, seen map[ssa.Value]bool) {
+					v = stripConv(v)
+					if seen[v] {
+						return
+					}
+					seen[v] = true
+					switch x := v.(type) {
+					case *ssa.Phi:
+						for i, e := range x.Edges {
+							walk(e, x.Block().Preds[i], seen)
+						}
+					case *ssa.Function:
+						if terminatorOf(V, x) == V.CommitUnstable {
+							nUnstable++
+							ok := notLevel(wScopes, sc, at, fileSync) && notLevel(wScopes, sc, at, dataSync)
+							R.Check(ok, id, "NFSPROC3_WRITE|CommitUnstable only when neither FILE_SYNC nor DATA_SYNC", P.Pos(call.Pos()), "the asynchronous commit becomes the function called only where args.Stable is neither FILE_SYNC nor DATA_SYNC", "both guards dominate", "a write requested with stable semantics is acknowledged after an asynchronous commit")
+						}
+					case *ssa.Extract:
+						lk, isL := x.Tuple.(*ssa.Lookup)
+						if !isL {
+							R.Undecided(id, "NFSPROC3_WRITE|commit chosen", P.Pos(call.Pos()), "the function called is a terminator chosen by the stability level", "unrecognised source of the function value")
+							return
+						}
+						walk(lk, at, seen)
+					case *ssa.Lookup:
+						okT := false
+						if ld, isLd := stripConv(x.X).(*ssa.UnOp); isLd && ld.Op == token.MUL && isStableLoad(sc.S.resolve(stripConv(x.Index))) {
+							if g, isG := ld.X.(*ssa.Global); isG {
+								if ents, okc := constTable(P, g); okc {
+									okT = true
+									// the table serves each level at least as strongly as asked
+									for _, e := range ents {
+										tf := terminatorOf(V, funcOf(e.val))
+										okE := tf != nil && V.Terminators[tf] == "commit"
+										switch e.key {
+										case fileSync:
+											okE = okE && tf == V.Commit
+										case dataSync:
+											okE = okE && (tf == V.Commit || tf == V.CommitData)
+										}
+										if tf == V.CommitUnstable {
+											nUnstable++
+										}
+										R.Check(okE, id, fmt.Sprintf("NFSPROC3_WRITE|table entry for level %d", e.key), P.Pos(call.Pos()), "the commit listed for a stability level is at least that strong (FILE_SYNC: Commit; DATA_SYNC: Commit or CommitData)", "entry agrees", "a write requested with stable semantics is acknowledged after a weaker commit")
+									}
+								}
+							}
+						}
+						if !okT {
+							R.Undecided(id, "NFSPROC3_WRITE|commit chosen", P.Pos(call.Pos()), "the function called is looked up by args.Stable in a package-level table that only its initialiser fills", "table or key not recognised")
+						}
+					default:
+						R.Undecided(id, "NFSPROC3_WRITE|commit chosen", P.Pos(call.Pos()), "the function called is a terminator chosen by the stability level", "unrecognised source of the function value")
+					}
+				}
+				walk(call.Call.Value, call.Block(), map[ssa.Value]bool{})
+			}
 		}
 	}
 	// the level reported
@@ -413,4 +533,207 @@ func valueOf(in ssa.Instruction) ssa.Value {
 		return v
 	}
 	return nil
+}
+
+type tableEntry struct {
+	key int64
+	val ssa.Value
+}
+
+func funcOf(v ssa.Value) *ssa.Function {
+	switch x := stripConv(v).(type) {
+	case *ssa.Function:
+		return x
+	case *ssa.MakeClosure:
+		f, _ := x.Fn.(*ssa.Function)
+		return f
+	}
+	return nil
+}
+
+// constTable: g is a package-level map with constant integer keys that is
+// built by the package initialiser and never stored to or updated afterwards.
+func constTable(P *Program, g *ssa.Global) ([]tableEntry, bool) {
+	if g.Pkg == nil {
+		return nil, false
+	}
+	init := g.Pkg.Func("init")
+	if init == nil {
+		return nil, false
+	}
+	var mk ssa.Value
+	nStore := 0
+	for _, b := range init.Blocks {
+		for _, in := range b.Instrs {
+			if st, ok := in.(*ssa.Store); ok && st.Addr == ssa.Value(g) {
+				nStore++
+				mk = st.Val
+			}
+		}
+	}
+	if nStore != 1 {
+		return nil, false
+	}
+	if _, isM := mk.(*ssa.MakeMap); !isM {
+		return nil, false
+	}
+	var out []tableEntry
+	for _, b := range init.Blocks {
+		for _, in := range b.Instrs {
+			if mu, ok := in.(*ssa.MapUpdate); ok && mu.Map == mk {
+				k, isk := constInt(stripConv(mu.Key))
+				if !isk {
+					return nil, false
+				}
+				out = append(out, tableEntry{k, mu.Value})
+			}
+		}
+	}
+	// nobody else writes it
+	for _, fn := range P.RepoFuncs() {
+		for _, b := range fn.Blocks {
+			for _, in := range b.Instrs {
+				switch x := in.(type) {
+				case *ssa.Store:
+					if x.Addr == ssa.Value(g) {
+						return nil, false
+					}
+				case *ssa.MapUpdate:
+					if ld, ok := stripConv(x.Map).(*ssa.UnOp); ok && ld.Op == token.MUL && ld.X == ssa.Value(g) {
+						return nil, false
+					}
+				case *ssa.Call:
+					for _, a := range x.Call.Args {
+						if a == ssa.Value(g) {
+							return nil, false // its address is handed out
+						}
+						if ld, ok := stripConv(a).(*ssa.UnOp); ok && ld.Op == token.MUL && ld.X == ssa.Value(g) {
+							if bi, isB := x.Call.Value.(*ssa.Builtin); !isB || (bi.Name() != "len") {
+								return nil, false // the map itself is handed to someone who may update it
+							}
+						}
+					}
+				}
+			}
+		}
+	}
+	return out, true
+}
+
+// funcValueUsers: the instructions (outside package initialisers) that mention
+// function f as a value, or that read a package-level variable whose
+// initialiser mentions it.
+func funcValueUsers(P *Program, f *ssa.Function) []ssa.Instruction {
+	var out []ssa.Instruction
+	globals := map[*ssa.Global]bool{}
+	mentions := func(in ssa.Instruction) bool {
+		for _, op := range in.Operands(nil) {
+			if *op == ssa.Value(f) {
+				return true
+			}
+		}
+		return false
+	}
+	var all []*ssa.Function
+	all = append(all, P.RepoFuncs()...)
+	for _, pkg := range P.Prog.AllPackages() {
+		if pkg.Pkg != nil && strings.HasPrefix(pkg.Pkg.Path(), modPath) {
+			if ini := pkg.Func("init"); ini != nil {
+				all = append(all, ini)
+			}
+		}
+	}
+	for _, fn := range all {
+		isInit := fn.Name() == "init" && fn.Synthetic != ""
+		for _, b := range fn.Blocks {
+			for _, in := range b.Instrs {
+				if !mentions(in) {
+					continue
+				}
+				if !isInit {
+					out = append(out, in)
+					continue
+				}
+				// put in a table by the initialiser: every package-level variable stored in this initialiser
+				for _, b2 := range fn.Blocks {
+					for _, in2 := range b2.Instrs {
+						if st, ok := in2.(*ssa.Store); ok {
+							if g, isG := st.Addr.(*ssa.Global); isG {
+								if mu, isMU := in.(*ssa.MapUpdate); isMU && st.Val == mu.Map {
+									globals[g] = true
+								}
+							}
+						}
+					}
+				}
+			}
+		}
+	}
+	if len(globals) > 0 {
+		for _, fn := range P.RepoFuncs() {
+			for _, b := range fn.Blocks {
+				for _, in := range b.Instrs {
+					for _, op := range in.Operands(nil) {
+						if g, isG := (*op).(*ssa.Global); isG && globals[g] {
+							out = append(out, in)
+						}
+					}
+				}
+			}
+		}
+	}
+	return out
+}
+
+// ruleU7: an UNSTABLE write is "readable immediately" only if its transaction
+// was accepted by the journal: CommitUnstable answers false when the journal
+// refuses the transaction, and the transaction is then undone.  WRITE must not
+// acknowledge such a write.  (C01.R1 leaves the asynchronous arm to C07.)
+func ruleU7(c *Ctx, id string) {
+	R, P := c.R, c.P
+	R.Rule(id, "an unstable write is acknowledged only if its commit was accepted: on every path of WRITE that returns a success status after CommitUnstable, the result of that call was tested and is true", 1)
+	t := c.tsPreamble(id)
+	type agg struct {
+		ok  bool
+		why string
+		pos string
+		n   int
+	}
+	res := map[string]*agg{}
+	for _, sn := range t.Snaps {
+		if !isProc(c, sn.Entry) || len(sn.G.Order) == 0 {
+			continue
+		}
+		last := sn.G.Order[len(sn.G.Order)-1]
+		ts := sn.G.Txns[last]
+		if ts.St != "committed" || ts.Via != "CommitUnstable" {
+			continue
+		}
+		cls, sv := statusClass(sn)
+		if cls != "ok" && cls != "?" {
+			continue
+		}
+		key := fmt.Sprintf("%s|return#%d|unstable commit accepted", sn.Entry, retOrdinal(sn.Ret))
+		a := res[key]
+		if a == nil {
+			a = &agg{ok: true, pos: P.Pos(sn.Ret.Pos())}
+			res[key] = a
+		}
+		a.n++
+		switch {
+		case cls == "?":
+			a.ok, a.why = false, "status value "+sv+" cannot be classified"
+		case ts.CommitRes != "true":
+			a.ok, a.why = false, "success status on a path where the result of CommitUnstable is "+ts.CommitRes
+		}
+	}
+	var keys []string
+	for k := range res {
+		keys = append(keys, k)
+	}
+	sort.Strings(keys)
+	for _, k := range keys {
+		a := res[k]
+		R.Check(a.ok, id, k, a.pos, "success after an asynchronous commit only when the journal accepted it", fmt.Sprintf("%d abstract end states, all with the result tested true", a.n), a.why+": the journal refused the transaction (it was undone), yet the client is told its data was written - it is not readable, and a later COMMIT succeeds")
+	}
 }
